@@ -26,6 +26,8 @@ ALLOWED_TAGS = ALLOWED_PREDICT | {"char_pma_states", "type_pma_states"}
 
 def run(chk):
     w = C.world_for(chk)
+    from . import ctors as _acc
+    _acc.accessors(chk, w, only=["vaporetto::sentence::"])
     for rid, txt in (("R05.1", "kill sets of the updates (shared with C05)"), ("R05.2", "error paths reset (shared with C05)"),
                      ("R08.2", "prediction reads no history-dependent sentence field before overwriting it"),
                      ("R08.3", "automaton state / predictor typestate"), ("R08.4", "no shared mutable state behind &Predictor"), ("R08.5", "lifetime witness")):
